@@ -15,6 +15,19 @@ CFGS = {
     "dry_tags_t": {"dry": True, "tags": "t"},
     "cafs": {"cafs": True},
 }
+# further combinations of the switches (C01's quantifier: "all combinations of --stop / --dry-run / @wip")
+CFGS.update({
+    "stop_dry": {"stop": True, "dry": True},
+    "wip_dry": {"wip": True, "dry": True},
+    "wip_cafs": {"wip": True, "cafs": True},
+    "stop_cafs": {"stop": True, "cafs": True},
+    "dry_cafs": {"dry": True, "cafs": True},
+    "stop_tags_not_t": {"stop": True, "tags": "not t"},
+    "dry_tags_not_t": {"dry": True, "tags": "not t"},
+    "stop_dry_tags_t": {"stop": True, "dry": True, "tags": "t"},
+})
+COMBO_CFGS = ("stop_dry", "wip_dry", "wip_cafs", "stop_cafs", "dry_cafs", "stop_tags_not_t", "dry_tags_not_t",
+              "stop_dry_tags_t")
 PLAIN_CFGS = ("default", "stop", "dry")
 TAG_CFGS = ("wip", "tags_t", "tags_not_t", "stop_tags_t")
 
@@ -121,6 +134,41 @@ def step_cases(tier, second=True):
                     yield ((pr[0], P.SECOND_FEATURE) if second else pr, cfg, None, None, False)
                 if tag == "wip" and ndev == 1 and "pending" in repr(pr):
                     yield ((pr[0], P.SECOND_FEATURE), "default", None, None, False)
+
+
+def combo_cases(tier):
+    """E1: small shapes x one tag placement x <= 1 (quick) / 2 (thorough) deviations x the switch combinations"""
+    quick = tier == "quick"
+    for shp in P.shapes(tier):
+        if P.size(shp) > (2 if quick else 4) or len(shp[3]) > 2:
+            continue
+        variants = [shp] + [tv for tv in tag_variants(shp)]
+        for tv in variants:
+            rp = repr(tv)
+            tag = "wip" if "'wip'" in rp else "t" if "'t'" in rp else None
+            for ndev, pr in P.deviations((tv,), 1 if quick else 2, outcomes=("fail", "error", "pending", "undefined", "skip", "abort"),
+                                         second=("fail", "pending", "skip")):
+                for cfg in COMBO_CFGS:
+                    needs = "wip" if cfg.startswith("wip") else "t" if "tags" in cfg else None
+                    if needs != tag:
+                        continue
+                    yield ((pr[0], P.SECOND_FEATURE), cfg, None, None, False)
+
+
+def excclass_cases(tier):
+    """E1: small shapes x {untagged, one @wip placement} x one exception-class variant (P.CLASS_VARIANTS) at one step
+    x {default, --wip, continue_after_failed_step, --stop}"""
+    quick = tier == "quick"
+    for shp in P.shapes(tier):
+        if P.size(shp) > (3 if quick else 5) or len(shp[3]) > 2:
+            continue
+        variants = [(shp, None)] + [(tv, "wip") for tv in tag_variants(shp, tags=("wip",))]
+        for tv, tag in variants:
+            for ndev, pr in P.deviations((tv,), 1, outcomes=P.CLASS_VARIANTS):
+                if not ndev:
+                    continue
+                for cfg in (("default", "wip", "cafs", "wip_cafs") if tag else ("default", "stop", "cafs")):
+                    yield ((pr[0], P.SECOND_FEATURE), cfg, None, None, False)
 
 
 def fault_cases(tier):
